@@ -361,12 +361,9 @@ Fixpoint check_conf_loop (log_enabled : bool) (txids : list N) (h : N) (snapshot
         end
       else if mem_uuid uuid (reorged t) then check_conf_loop log_enabled txids h r t completed
       else if t_conf k then
-        match u32_sub h (t_height k) with
-        | None => Abort S_r_confirmations_underflow t
-        | Some c =>
-            check_conf_loop log_enabled txids h r t
-              (if N.eqb c (Z.to_N Consts.IRREVOCABLY_RESOLVED) then completed ++ [uuid] else completed)
-        end
+        (* confirmations = current_height.saturating_sub(h) (N subtraction truncates at 0) *)
+        check_conf_loop log_enabled txids h r t
+          (if N.eqb (h - t_height k) (Z.to_N Consts.IRREVOCABLY_RESOLVED) then completed ++ [uuid] else completed)
       else
         (* InMempoolSince: only logged (saturating_sub since the fix of F17) *)
         check_conf_loop log_enabled txids h r t completed
